@@ -523,6 +523,6 @@ Proof.
   unfold conc_wf, conc_agrees, conc_spec_ok. intros W A.
   apply andb_true_iff in W. destruct W as [D _].
   repeat (apply andb_true_iff in A; destruct A as [A ?]).
-  rewrite A, H0. simpl. eapply clients_agree_spec; eauto.
+  rewrite A, H0, H1. simpl. eapply clients_agree_spec; eauto.
   intros k c K. exact K.
 Qed.
